@@ -56,10 +56,14 @@ theorem find?_unique {α} (p : α → Bool) (k : α) : ∀ (l : List α), k ∈ 
 
 /-- distinct funcvals live at distinct addresses (user callbacks are static funcvals, MakeFunc stubs heap objects); stated for
     the `nCb` callbacks the observer knows and the first `nS` stubs (addresses are 64-bit: no family is injective on all of ℕ) -/
-structure AddrOk (env : Env) (nCb nS : Nat) : Prop where
+structure AddrOk (env : Env) (nCb nS nA : Nat) : Prop where
   cb_inj : ∀ k k', k < nCb → k' < nCb → env.cbAddr k = env.cbAddr k' → k = k'
   stub_inj : ∀ n n', n < nS → n' < nS → env.stubAddr n = env.stubAddr n' → n = n'
   disjoint : ∀ k n, n < nS → env.cbAddr k ≠ env.stubAddr n
+  /-- the first `nA` dictionary-dropping adapters are heap objects of their own -/
+  adapt_inj : ∀ n n', n < nA → n' < nA → env.adaptAddr n = env.adaptAddr n' → n = n'
+  adapt_cb : ∀ k n, n < nA → env.cbAddr k ≠ env.adaptAddr n
+  adapt_stub : ∀ m n, m < nS → n < nA → env.stubAddr m ≠ env.adaptAddr n
 
 /-! ### fields the patch-level functions never touch -/
 
@@ -102,10 +106,10 @@ theorem replaceFunc_aux (env : Env) (s : St) (f : Nat) (to : BitVec 64) (tramp :
         · exact h
 
 theorem applyImp_aux (env : Env) (s : St) (id : Nat) (imp : Imp) : Aux (applyImp env s id imp).1 = Aux s := by
-  have h := replaceFunc_aux env s (s.mockers id).target (impAddr env imp) (s.mockers id).origin
+  have h := replaceFunc_aux env s (s.mockers id).target (dest env s id imp) (s.mockers id).origin
   unfold applyImp
   simp only []
-  cases hres : replaceFunc env s (s.mockers id).target (impAddr env imp) (s.mockers id).origin with
+  cases hres : replaceFunc env s (s.mockers id).target (dest env s id imp) (s.mockers id).origin with
   | mk s1 res =>
     rw [hres] at h
     cases res with
@@ -140,11 +144,40 @@ theorem resetB_aux (s : St) (b : Nat) : Aux (resetB s b) = Aux s := by
 
 /-! ### ownership: a patched entry carries the jump to the current implementation of a live mocker -/
 
-/-- guard `g` is held by an allocated, not cancelled mocker whose current implementation the jump bytes of `g` lead to;
-    if that implementation is a `MakeFunc` stub, the mocker still owns the `When` the stub serves -/
+/-- the adapter table only grows, installed adapters never change -/
+def AdaptLe (s s' : St) : Prop := s.nAdapt ≤ s'.nAdapt ∧ ∀ n, n < s.nAdapt → s'.adapt n = s.adapt n
+
+theorem AdaptLe.refl (s : St) : AdaptLe s s := ⟨Nat.le_refl _, fun _ _ => rfl⟩
+theorem AdaptLe.trans {a b c : St} (h1 : AdaptLe a b) (h2 : AdaptLe b c) : AdaptLe a c :=
+  ⟨Nat.le_trans h1.1 h2.1, fun n hn => by rw [h2.2 n (Nat.lt_of_lt_of_le hn h1.1), h1.2 n hn]⟩
+theorem AdaptLe.of_eq {s s' : St} (h1 : s'.nAdapt = s.nAdapt) (h2 : s'.adapt = s.adapt) : AdaptLe s s' :=
+  ⟨Nat.le_of_eq h1.symm, fun _ _ => by rw [h2]⟩
+
+/-- funcval address `a` runs implementation `imp`: it is the implementation's own funcval, or an installed adapter that forwards to it -/
+def Denotes (env : Env) (s : St) (a : BitVec 64) (imp : Imp) : Prop :=
+  a = impAddr env imp ∨ ∃ n, n < s.nAdapt ∧ a = env.adaptAddr n ∧ s.adapt n = some imp
+
+theorem Denotes.mono {env : Env} {s s' : St} (h : AdaptLe s s') {a : BitVec 64} {imp : Imp} (hd : Denotes env s a imp) :
+    Denotes env s' a imp := by
+  rcases hd with e | ⟨n, hn, e1, e2⟩
+  · exact Or.inl e
+  · exact Or.inr ⟨n, Nat.lt_of_lt_of_le hn h.1, e1, by rw [h.2 n hn]; exact e2⟩
+
+/-- the jump bytes of guard `g` lead to something that runs `imp` -/
+def JumpsTo (env : Env) (s : St) (g : Nat) (imp : Imp) : Prop :=
+  ∃ a, (s.guards g).jumpBytes = jumpTo a ∧ Denotes env s a imp
+
+theorem JumpsTo.transfer {env : Env} {s s' : St} {g : Nat} {imp : Imp} (hg : s'.guards g = s.guards g) (hle : AdaptLe s s')
+    (h : JumpsTo env s g imp) : JumpsTo env s' g imp := by
+  obtain ⟨a, h1, h2⟩ := h
+  exact ⟨a, by rw [hg]; exact h1, h2.mono hle⟩
+
+/-- guard `g` is held by an allocated, not cancelled mocker whose current implementation the jump bytes of `g` lead to (directly,
+    or through the dictionary-dropping adapter of a generic target); if that implementation is a `MakeFunc` stub, the mocker
+    still owns the `When` the stub serves -/
 def Witness (env : Env) (s : St) (g : Nat) : Prop :=
   ∃ id imp, id < s.nMockers ∧ (s.mockers id).guard = some g ∧ (s.mockers id).imp = some imp ∧
-    (s.guards g).jumpBytes = jumpTo (impAddr env imp) ∧ (s.mockers id).canceled = false ∧
+    JumpsTo env s g imp ∧ (s.mockers id).canceled = false ∧
     (∀ n, imp = .stub n → (s.mockers id).hasWhen = true ∧ n < s.nStubs)
 
 def OwnOn (env : Env) (s : St) (P : Nat → Prop) : Prop :=
@@ -160,7 +193,7 @@ theorem ownOn_transfer {env : Env} {s s' : St} {P P' : Nat → Prop} (hi : Inv e
     (hgd : ∀ g, g < s.nGuards → s'.guards g = s.guards g)
     (htx : ∀ f, P' f → s'.text f = s.text f ∨ s'.text f = env.pristine f)
     (hm : ∀ id f, id < s.nMockers → P' f → (s.mockers id).target = f → mv (s'.mockers id) = mv (s.mockers id))
-    (hn : s.nMockers ≤ s'.nMockers) (hst : s.nStubs ≤ s'.nStubs) : OwnOn env s' P' := by
+    (hn : s.nMockers ≤ s'.nMockers) (hst : s.nStubs ≤ s'.nStubs) (hle : AdaptLe s s') : OwnOn env s' P' := by
   intro f p g hPf h1 h2 h3 h4
   rw [hpat f hPf] at h1
   have hr := hi.reg f p g h1 h2
@@ -173,7 +206,7 @@ theorem ownOn_transfer {env : Env} {s s' : St} {P P' : Nat → Prop} (hi : Inv e
   have htg : (s.mockers id).target = f := by rw [← (hi.mg id g hg).2]; exact hr.2
   have hmv := hm id f hlt hPf htg
   simp only [mv, Prod.mk.injEq] at hmv
-  refine ⟨id, imp, by omega, by rw [hmv.1]; exact hg, by rw [hmv.2.1]; exact him, by rw [hgd g hr.1]; exact hj,
+  refine ⟨id, imp, by omega, by rw [hmv.1]; exact hg, by rw [hmv.2.1]; exact him, hj.transfer (hgd g hr.1) hle,
     by rw [hmv.2.2.1]; exact hc, ?_⟩
   intro n hn'
   have := hs n hn'
@@ -211,6 +244,74 @@ theorem replaceFunc_frame2 {env : Env} (he : EnvOk env) {s : St} (hi : Inv env s
         · exact ⟨fun x hx => by simp [register, upd, hx, hp1 x hx], fun g _ => by simp [register, hg1]⟩
         · exact B _ _ (fun x hx => by simp [register, upd, hx, hp1 x hx]) (fun g _ => by simp [register, hg1]) (by simp [register, hn1])
 
+/-! ### the adapter table under the patch-level functions -/
+
+def Aux2 (s : St) := (s.nAdapt, s.adapt)
+
+theorem adaptLe_of_aux2 {s s' : St} (h : Aux2 s' = Aux2 s) : AdaptLe s s' :=
+  AdaptLe.of_eq (congrArg (fun t => t.1) h) (congrArg (fun t => t.2) h)
+
+theorem guardUnpatch_aux2 (s : St) (g : Nat) : Aux2 (guardUnpatch s g) = Aux2 s := by
+  unfold guardUnpatch; split <;> rfl
+
+theorem cancelGuard_aux2 (s : St) (og : Option Nat) : Aux2 (cancelGuard s og) = Aux2 s := by
+  cases og with
+  | none => rfl
+  | some g => exact guardUnpatch_aux2 s g
+
+theorem unpatchValue_aux2 (s : St) (f : Nat) : Aux2 (unpatchValue s f) = Aux2 s := by
+  unfold unpatchValue
+  cases s.patches f with
+  | none => rfl
+  | some p =>
+    show Aux2 (patchUnpatch s p) = Aux2 s
+    unfold patchUnpatch
+    cases p.guard with
+    | none => rfl
+    | some g => exact guardUnpatch_aux2 s g
+
+theorem replaceFunc_aux2 (env : Env) (s : St) (f : Nat) (to : BitVec 64) (tramp : Option Nat) :
+    Aux2 (replaceFunc env s f to tramp).1 = Aux2 s := by
+  have h := unpatchValue_aux2 s f
+  unfold replaceFunc
+  simp only []
+  split
+  · exact h
+  · split
+    · exact h
+    · cases tramp with
+      | none => exact h
+      | some o =>
+        simp only []
+        split
+        · exact h
+        · exact h
+
+theorem cancelMocker_aux2 (s : St) (id : Nat) : Aux2 (cancelMocker s id) = Aux2 s :=
+  cancelGuard_aux2 s (s.mockers id).guard
+
+/-- `applyBy*` extends the adapter table by at most the adapter it installs, which forwards to the implementation applied -/
+theorem applyImp_adapt (env : Env) (s : St) (id : Nat) (imp : Imp) :
+    AdaptLe s (applyImp env s id imp).1 ∧
+    ((applyImp env s id imp).2 = none → Denotes env (applyImp env s id imp).1 (dest env s id imp) imp) := by
+  have h := replaceFunc_aux2 env s (s.mockers id).target (dest env s id imp) (s.mockers id).origin
+  unfold applyImp
+  simp only []
+  cases hres : replaceFunc env s (s.mockers id).target (dest env s id imp) (s.mockers id).origin with
+  | mk s1 res =>
+    rw [hres] at h
+    cases res with
+    | error e =>
+      refine ⟨adaptLe_of_aux2 h, ?_⟩
+      intro h'; cases h'
+    | ok g =>
+      simp only []
+      by_cases hg : env.generic (s.mockers id).target = true
+      · refine ⟨⟨by simp [hg], fun n hn => by
+          have : n ≠ s.nAdapt := by omega
+          simp [hg, upd, this]⟩, fun _ => Or.inr ⟨s.nAdapt, by simp [hg], by simp [dest, hg], by simp [hg, upd]⟩⟩
+      · refine ⟨⟨by simp [hg], fun n _ => by simp [hg]⟩, fun _ => Or.inl (by simp [dest, hg])⟩
+
 /-- `applyBy*` re-establishes ownership of its target (and keeps it everywhere else); it may start from a state in which the
     target's ownership is broken (`whens` has just replaced `m.imp`) -/
 theorem applyImp_own {env : Env} (he : EnvOk env) {s : St} (hi : Inv env s) (id : Nat) (imp : Imp)
@@ -220,8 +321,8 @@ theorem applyImp_own {env : Env} (he : EnvOk env) {s : St} (hi : Inv env s) (id 
     ((applyImp env s id imp).2 = none → ((applyImp env s id imp).1.mockers id).imp = some imp) := by
   have haux := applyImp_aux env s id imp
   have hspec := applyImp_spec he hi id imp
-  obtain ⟨r1, r2, r3, r4, r5, r6, _, r8⟩ := replaceFunc_spec he hi (s.mockers id).target (impAddr env imp) (s.mockers id).origin
-  obtain ⟨q1, q2⟩ := replaceFunc_frame2 he hi (s.mockers id).target (impAddr env imp) (s.mockers id).origin
+  obtain ⟨r1, r2, r3, r4, r5, r6, _, r8⟩ := replaceFunc_spec he hi (s.mockers id).target (dest env s id imp) (s.mockers id).origin
+  obtain ⟨q1, q2⟩ := replaceFunc_frame2 he hi (s.mockers id).target (dest env s id imp) (s.mockers id).origin
   -- facts about the result, branch by branch
   have facts : (∀ x, x ≠ (s.mockers id).target → (applyImp env s id imp).1.patches x = s.patches x) ∧
       (∀ g, g < s.nGuards → (applyImp env s id imp).1.guards g = s.guards g) ∧
@@ -229,12 +330,12 @@ theorem applyImp_own {env : Env} (he : EnvOk env) {s : St} (hi : Inv env s) (id 
       ((applyImp env s id imp).2 = none → ((applyImp env s id imp).1.mockers id).imp = some imp) ∧
       ((applyImp env s id imp).2 = none → ∀ p g, (applyImp env s id imp).1.patches (s.mockers id).target = some p → p.guard = some g →
         ((applyImp env s id imp).1.mockers id).guard = some g ∧
-        ((applyImp env s id imp).1.guards g).jumpBytes = jumpTo (impAddr env imp) ∧
+        ((applyImp env s id imp).1.guards g).jumpBytes = jumpTo (dest env s id imp) ∧
         ((applyImp env s id imp).1.mockers id).canceled = false ∧
         ((applyImp env s id imp).1.mockers id).hasWhen = (s.mockers id).hasWhen) := by
     unfold applyImp
     simp only []
-    cases hres : replaceFunc env s (s.mockers id).target (impAddr env imp) (s.mockers id).origin with
+    cases hres : replaceFunc env s (s.mockers id).target (dest env s id imp) (s.mockers id).origin with
     | mk s1 res =>
       rw [hres] at r1 r2 r3 r4 r5 r6 r8 q1 q2
       simp only [] at r1 r2 r3 r4 r5 r6 r8 q1 q2
@@ -272,7 +373,7 @@ theorem applyImp_own {env : Env} (he : EnvOk env) {s : St} (hi : Inv env s) (id 
       exact absurd (hspec.2.2.2.1 (by rw [hok]; simp)) h4
     | none =>
       obtain ⟨a, b, c, d⟩ := F5 hok p g h1 h2
-      refine ⟨id, imp, ?_, a, F4 hok, b, c, ?_⟩
+      refine ⟨id, imp, ?_, a, F4 hok, ⟨dest env s id imp, b, (applyImp_adapt env s id imp).2 hok⟩, c, ?_⟩
       · have : (applyImp env s id imp).1.nMockers = s.nMockers := congrArg (fun t => t.1) haux
         omega
       · intro n hn
@@ -288,6 +389,7 @@ theorem applyImp_own {env : Env} (he : EnvOk env) {s : St} (hi : Inv env s) (id 
           omega)
       (by have : (applyImp env s id imp).1.nStubs = s.nStubs := congrArg (fun t => t.2.1) haux
           omega)
+      (applyImp_adapt env s id imp).1
     exact T f p g hf h1 h2 h3 h4
 
 theorem ownOn_weaken {env : Env} {s : St} {P P' : Nat → Prop} (ho : OwnOn env s P) (h : ∀ f, P' f → P f) : OwnOn env s P' :=
@@ -297,15 +399,16 @@ theorem ownOn_weaken {env : Env} {s : St} {P P' : Nat → Prop} (ho : OwnOn env 
 theorem ownOn_mockers {env : Env} {s s' : St} {P : Nat → Prop} (hi : Inv env s) (ho : OwnOn env s P)
     (hpat : s'.patches = s.patches) (hgd : s'.guards = s.guards) (htx : s'.text = s.text)
     (hm : ∀ id f, id < s.nMockers → P f → (s.mockers id).target = f → mv (s'.mockers id) = mv (s.mockers id))
-    (hn : s.nMockers ≤ s'.nMockers) (hst : s.nStubs ≤ s'.nStubs) : OwnOn env s' P :=
+    (hn : s.nMockers ≤ s'.nMockers) (hst : s.nStubs ≤ s'.nStubs) (hna : s'.nAdapt = s.nAdapt) (had : s'.adapt = s.adapt) : OwnOn env s' P :=
   ownOn_transfer hi ho (fun _ h => h) (fun _ _ => by rw [hpat]) (fun _ _ => by rw [hgd]) (fun _ _ => Or.inl (by rw [htx])) hm hn hst
+    (AdaptLe.of_eq hna had)
 
 theorem setOrigin_own {env : Env} {s : St} {P : Nat → Prop} (hi : Inv env s) (ho : OwnOn env s P) (id : Nat) (o : Option Nat) :
     OwnOn env (setOrigin s id o) P := by
   cases o with
   | none => exact ho
   | some o =>
-    refine ownOn_mockers hi ho rfl rfl rfl ?_ (Nat.le_refl _) (Nat.le_refl _)
+    refine ownOn_mockers hi ho rfl rfl rfl ?_ (Nat.le_refl _) (Nat.le_refl _) rfl rfl
     intro j f _ _ _
     by_cases hj : j = id <;> simp [setOrigin, upd, hj, mv]
 
@@ -314,7 +417,7 @@ theorem whens_own {env : Env} {s : St} (hi : Inv env s) (ho : OwnOn env s (fun _
     OwnOn env (whens s id) (fun f => f ≠ ((whens s id).mockers id).target) := by
   have ht : ((whens s id).mockers id).target = (s.mockers id).target := by simp [whens, upd]
   rw [ht]
-  refine ownOn_mockers hi (ownOn_weaken ho (fun _ _ => trivial)) rfl rfl rfl ?_ (Nat.le_refl _) (by simp [whens])
+  refine ownOn_mockers hi (ownOn_weaken ho (fun _ _ => trivial)) rfl rfl rfl ?_ (Nat.le_refl _) (by simp [whens]) rfl rfl
   intro j f _ hf htg
   have : j ≠ id := fun h => hf (by rw [← htg, h])
   simp [whens, upd, this]
@@ -370,7 +473,8 @@ theorem cancelMocker_own {env : Env} (he : EnvOk env) {s : St} (hi : Inv env s) 
   have hgd : (cancelMocker s id).guards = s.guards := c7
   have hnm : (cancelMocker s id).nMockers = s.nMockers := congrArg (fun t => t.1) (cancelMocker_aux s id)
   have hns : (cancelMocker s id).nStubs = s.nStubs := congrArg (fun t => t.2.1) (cancelMocker_aux s id)
-  exact ⟨j, imp, by omega, by rw [hmk]; exact hg, by rw [hmk]; exact him, by rw [hgd]; exact hj, by rw [hmk]; exact hc,
+  exact ⟨j, imp, by omega, by rw [hmk]; exact hg, by rw [hmk]; exact him,
+    hj.transfer (by rw [hgd]) (adaptLe_of_aux2 (cancelMocker_aux2 s id)), by rw [hmk]; exact hc,
     fun n hn => by rw [hmk, hns]; exact hs n hn⟩
 
 theorem cancelKeys_own {env : Env} (he : EnvOk env) (b : Nat) (ks : List Nat) : ∀ {s : St}, Inv env s →
@@ -388,7 +492,7 @@ theorem getMocker_own {env : Env} {s : St} (hi : Inv env s) (ho : OwnOn env s (f
     OwnOn env (getMocker s o key).1 (fun _ => True) ∧ (getMocker s o key).2 < (getMocker s o key).1.nMockers ∧
     s.nMockers ≤ (getMocker s o key).1.nMockers ∧ (getMocker s o key).1.handle = s.handle := by
   have hf : OwnOn env (getMocker.fresh s o key).1 (fun _ => True) := by
-    refine ownOn_mockers hi ho rfl rfl rfl ?_ (by simp [getMocker.fresh]) (Nat.le_refl _)
+    refine ownOn_mockers hi ho rfl rfl rfl ?_ (by simp [getMocker.fresh]) (Nat.le_refl _) rfl rfl
     intro j f hlt _ _
     have : j ≠ s.nMockers := by omega
     simp [getMocker.fresh, upd, this]
@@ -616,24 +720,24 @@ theorem jump_ne_of_nop (to : BitVec 64) (bs : Bytes) (h : Gen.Amd64.checkAlready
 
 theorem applyImp_ok_ne {env : Env} (he : EnvOk env) {s : St} (hi : Inv env s) (id : Nat) (imp : Imp)
     (h : (applyImp env s id imp).2 = none) :
-    jumpTo (impAddr env imp) ≠ (env.pristine (s.mockers id).target).take 13 := by
+    jumpTo (dest env s id imp) ≠ (env.pristine (s.mockers id).target).take 13 := by
   unfold applyImp at h
   simp only [] at h
-  cases hres : replaceFunc env s (s.mockers id).target (impAddr env imp) (s.mockers id).origin with
+  cases hres : replaceFunc env s (s.mockers id).target (dest env s id imp) (s.mockers id).origin with
   | mk s1 res =>
     rw [hres] at h
     cases res with
     | error e => simp at h
     | ok g =>
-      have := replaceFunc_ok_nop he hi (s.mockers id).target (impAddr env imp) (s.mockers id).origin g (by rw [hres])
+      have := replaceFunc_ok_nop he hi (s.mockers id).target (dest env s id imp) (s.mockers id).origin g (by rw [hres])
       exact jump_ne_of_nop _ _ this
 
 theorem applyImp_hasWhen {env : Env} (he : EnvOk env) {s : St} (hi : Inv env s) (id : Nat) (imp : Imp) (j : Nat) :
     ((applyImp env s id imp).1.mockers j).hasWhen = (s.mockers j).hasWhen := by
-  obtain ⟨_, _, _, r4, _⟩ := replaceFunc_spec he hi (s.mockers id).target (impAddr env imp) (s.mockers id).origin
+  obtain ⟨_, _, _, r4, _⟩ := replaceFunc_spec he hi (s.mockers id).target (dest env s id imp) (s.mockers id).origin
   unfold applyImp
   simp only []
-  cases hres : replaceFunc env s (s.mockers id).target (impAddr env imp) (s.mockers id).origin with
+  cases hres : replaceFunc env s (s.mockers id).target (dest env s id imp) (s.mockers id).origin with
   | mk s1 res =>
     rw [hres] at r4
     simp only [] at r4
@@ -645,18 +749,26 @@ theorem applyImp_imp_ok (env : Env) (s : St) (id : Nat) (imp : Imp) (h : (applyI
     ((applyImp env s id imp).1.mockers id).imp = some imp := by
   unfold applyImp at h ⊢
   simp only [] at h ⊢
-  cases hres : replaceFunc env s (s.mockers id).target (impAddr env imp) (s.mockers id).origin with
+  cases hres : replaceFunc env s (s.mockers id).target (dest env s id imp) (s.mockers id).origin with
   | mk s1 res =>
     rw [hres] at h
     cases res with
     | error e => simp at h
     | ok g => simp [upd]
 
-/-- a successful `Apply(cb k)` on the mocker owner `o` hands out for `key`: exactly the jump to the callback, over pristine bytes -/
+theorem applyCb_aux2 (env : Env) (s : St) (id k : Nat) : Aux2 (applyCb env s id k).1 = Aux2 (applyImp env s id (.cb k)).1 := by
+  unfold applyCb
+  cases (applyImp env s id (.cb k)).2 with
+  | none => rfl
+  | some e => rfl
+
+/-- a successful `Apply(cb k)` on the mocker owner `o` hands out for `key`: exactly one entry jump over pristine bytes, leading to
+    the callback's funcval — directly, or for a generic target through a freshly installed adapter that forwards to it -/
 theorem doApply_ok {env : Env} (he : EnvOk env) {s : St} (hi : Inv env s) (o key k : Nat) (origin : Option Nat)
     (h : (doApply env s o key k origin).2 = none) :
-    (doApply env s o key k origin).1.text (key % 1000) = overwrite (env.pristine (key % 1000)) (jumpTo (env.cbAddr k)) ∧
-    jumpTo (env.cbAddr k) ≠ (env.pristine (key % 1000)).take 13 := by
+    ∃ a, (doApply env s o key k origin).1.text (key % 1000) = overwrite (env.pristine (key % 1000)) (jumpTo a) ∧
+      jumpTo a ≠ (env.pristine (key % 1000)).take 13 ∧ Denotes env (doApply env s o key k origin).1 a (.cb k) ∧
+      (env.generic (key % 1000) = false → a = env.cbAddr k) := by
   obtain ⟨g1, _, g3, _, _⟩ := getMocker_spec hi o key
   obtain ⟨o1, _, _, _, _, o6⟩ := setOrigin_spec g1 (getMocker s o key).2 origin
   have ht : ((setOrigin (getMocker s o key).1 (getMocker s o key).2 origin).mockers (getMocker s o key).2).target = key % 1000 := by
@@ -666,15 +778,20 @@ theorem doApply_ok {env : Env} (he : EnvOk env) {s : St} (hi : Inv env s) (o key
     rw [← c3]; exact h
   have a := (applyImp_spec he o1 (getMocker s o key).2 (.cb k)).2.2.1 h'
   have b := applyImp_ok_ne he o1 (getMocker s o key).2 (.cb k) h'
+  have d := (applyImp_adapt env (setOrigin (getMocker s o key).1 (getMocker s o key).2 origin) (getMocker s o key).2 (.cb k)).2 h'
   rw [ht] at a b
-  exact ⟨by show (applyCb env _ _ _).1.text _ = _; rw [c2]; exact a, b⟩
+  refine ⟨_, by show (applyCb env _ _ _).1.text _ = _; rw [c2]; exact a, b, ?_, ?_⟩
+  · exact d.mono (adaptLe_of_aux2 (applyCb_aux2 env _ _ k))
+  · intro hng; simp [dest, ht, hng, impAddr]
 
-/-- a successful `Return`/`When` that builds a new `When`: exactly the jump to the new stub, whose `When` the mocker owns -/
+/-- a successful `Return`/`When` that builds a new `When`: exactly one entry jump, leading to the new stub (through an adapter for
+    a generic target), whose `When` the mocker owns -/
 theorem doRet_ok {env : Env} (he : EnvOk env) {s : St} (hi : Inv env s) (o key : Nat) (origin : Option Nat)
     (hw : ((setOrigin (getMocker s o key).1 (getMocker s o key).2 origin).mockers (getMocker s o key).2).hasWhen = false)
     (h : (doRet env s o key origin).2 = none) :
-    (doRet env s o key origin).1.text (key % 1000) = overwrite (env.pristine (key % 1000)) (jumpTo (env.stubAddr s.nStubs)) ∧
-    jumpTo (env.stubAddr s.nStubs) ≠ (env.pristine (key % 1000)).take 13 ∧
+    (∃ a, (doRet env s o key origin).1.text (key % 1000) = overwrite (env.pristine (key % 1000)) (jumpTo a) ∧
+      jumpTo a ≠ (env.pristine (key % 1000)).take 13 ∧ Denotes env (doRet env s o key origin).1 a (.stub s.nStubs) ∧
+      (env.generic (key % 1000) = false → a = env.stubAddr s.nStubs)) ∧
     (doRet env s o key origin).1.nStubs = s.nStubs + 1 ∧
     ((doRet env s o key origin).1.mockers (getMocker s o key).2).hasWhen = true ∧
     ((doRet env s o key origin).1.mockers (getMocker s o key).2).imp = some (.stub s.nStubs) := by
@@ -696,10 +813,13 @@ theorem doRet_ok {env : Env} (he : EnvOk env) {s : St} (hi : Inv env s) (o key :
   rw [hns] at h ⊢
   have a := (applyImp_spec he w1 (getMocker s o key).2 (.stub s.nStubs)).2.2.1 h
   have b := applyImp_ok_ne he w1 (getMocker s o key).2 (.stub s.nStubs) h
+  have d := (applyImp_adapt env (whens (setOrigin (getMocker s o key).1 (getMocker s o key).2 origin) (getMocker s o key).2)
+    (getMocker s o key).2 (.stub s.nStubs)).2 h
   rw [ht] at a b
   have aux := applyImp_aux env (whens (setOrigin (getMocker s o key).1 (getMocker s o key).2 origin) (getMocker s o key).2)
     (getMocker s o key).2 (.stub s.nStubs)
-  refine ⟨a, b, ?_, ?_, applyImp_imp_ok _ _ _ _ h⟩
+  refine ⟨⟨_, a, b, d, ?_⟩, ?_, ?_, applyImp_imp_ok _ _ _ _ h⟩
+  · intro hng; simp [dest, ht, hng, impAddr]
   · have := congrArg (fun t => t.2.1) aux
     simp only [Aux] at this
     rw [this]; simp [whens, hns]
@@ -895,5 +1015,110 @@ theorem step_scanceled (env : Env) (s : St) (op : Op) : (step env s op).1.scance
       rw [getMocker_scanceled, structOf_scanceled s b kept r h]
   | other b => rfl
   | applyBad b key => exact getMocker_scanceled s b key
+
+/-! ### the adapter table never loses or changes an installed adapter -/
+
+theorem getMocker_aux2 (s : St) (o key : Nat) : Aux2 (getMocker s o key).1 = Aux2 s := by
+  unfold getMocker
+  cases s.cache o key with
+  | none => rfl
+  | some id => simp only []; split <;> rfl
+
+theorem setOrigin_aux2 (s : St) (id : Nat) (o : Option Nat) : Aux2 (setOrigin s id o) = Aux2 s := by cases o <;> rfl
+
+theorem getStruct_aux2 (s : St) (b : Nat) : Aux2 (getStruct s b).1 = Aux2 s := by
+  unfold getStruct
+  cases s.scache b with
+  | none => rfl
+  | some o => simp only []; split <;> rfl
+
+theorem structOf_aux2 (s : St) (b : Nat) (kept : Bool) (r : St × Nat) (h : structOf s b kept = some r) : Aux2 r.1 = Aux2 s := by
+  unfold structOf at h
+  split at h
+  · cases hs : s.shandle b with
+    | none => rw [hs] at h; cases h
+    | some o => rw [hs] at h; cases h; rfl
+  · cases h; exact getStruct_aux2 s b
+
+theorem cancelKeys_aux2 (b : Nat) (ks : List Nat) : ∀ (s : St), Aux2 (cancelKeys s b ks) = Aux2 s := by
+  induction ks with
+  | nil => intro s; rfl
+  | cons k ks ih =>
+    intro s
+    unfold cancelKeys
+    cases s.cache b k with
+    | none => exact ih s
+    | some id => simp only []; rw [ih]; exact cancelMocker_aux2 s id
+
+theorem resetB_aux2 (s : St) (b : Nat) : Aux2 (resetB s b) = Aux2 s := by
+  unfold resetB
+  cases s.scache b with
+  | none => exact cancelKeys_aux2 b _ s
+  | some o => simp only []; rw [cancelKeys_aux2, cancelKeys_aux2]
+
+theorem applyCb_adaptLe (env : Env) (s : St) (id k : Nat) : AdaptLe s (applyCb env s id k).1 :=
+  (applyImp_adapt env s id (.cb k)).1.trans (adaptLe_of_aux2 (applyCb_aux2 env s id k))
+
+theorem doApply_adaptLe (env : Env) (s : St) (o key k : Nat) (origin : Option Nat) : AdaptLe s (doApply env s o key k origin).1 :=
+  ((adaptLe_of_aux2 (getMocker_aux2 s o key)).trans (adaptLe_of_aux2 (setOrigin_aux2 _ _ origin))).trans (applyCb_adaptLe env _ _ k)
+
+theorem doRet_adaptLe (env : Env) (s : St) (o key : Nat) (origin : Option Nat) : AdaptLe s (doRet env s o key origin).1 := by
+  have e := (adaptLe_of_aux2 (getMocker_aux2 s o key)).trans (adaptLe_of_aux2 (setOrigin_aux2 _ (getMocker s o key).2 origin))
+  unfold doRet
+  split
+  · exact e
+  · exact (e.trans (AdaptLe.of_eq rfl rfl)).trans (applyImp_adapt env (whens _ _) _ _).1
+
+theorem step_adaptLe (env : Env) (s : St) (op : Op) : AdaptLe s (step env s op).1 := by
+  cases op with
+  | apply b key k origin => exact doApply_adaptLe env s b key k origin
+  | ret b key origin => exact doRet_adaptLe env s b key origin
+  | cancel b key => exact (adaptLe_of_aux2 (getMocker_aux2 s b key)).trans (adaptLe_of_aux2 (cancelMocker_aux2 _ _))
+  | reset b => exact adaptLe_of_aux2 (resetB_aux2 s b)
+  | keep b key => exact adaptLe_of_aux2 (getMocker_aux2 s b key)
+  | applyH b key k =>
+    simp only [step]
+    cases s.handle b key with
+    | none => exact AdaptLe.refl s
+    | some id => exact applyCb_adaptLe env s id k
+  | retH b key =>
+    simp only [step]
+    cases s.handle b key with
+    | none => exact AdaptLe.refl s
+    | some id =>
+      simp only []
+      split
+      · exact AdaptLe.refl s
+      · exact (AdaptLe.of_eq rfl rfl).trans (applyImp_adapt env (whens s id) id _).1
+  | cancelH b key =>
+    simp only [step]
+    cases s.handle b key with
+    | none => exact AdaptLe.refl s
+    | some id => exact adaptLe_of_aux2 (cancelMocker_aux2 s id)
+  | keepS b => exact adaptLe_of_aux2 (getStruct_aux2 s b)
+  | sapply b key k origin kept =>
+    simp only [step]
+    cases h : structOf s b kept with
+    | none => exact AdaptLe.refl s
+    | some r => exact (adaptLe_of_aux2 (structOf_aux2 s b kept r h)).trans (doApply_adaptLe env r.1 r.2 key k origin)
+  | sret b key origin kept =>
+    simp only [step]
+    cases h : structOf s b kept with
+    | none => exact AdaptLe.refl s
+    | some r => exact (adaptLe_of_aux2 (structOf_aux2 s b kept r h)).trans (doRet_adaptLe env r.1 r.2 key origin)
+  | scancel b key kept =>
+    simp only [step]
+    cases h : structOf s b kept with
+    | none => exact AdaptLe.refl s
+    | some r =>
+      exact ((adaptLe_of_aux2 (structOf_aux2 s b kept r h)).trans (adaptLe_of_aux2 (getMocker_aux2 r.1 r.2 key))).trans
+        (adaptLe_of_aux2 (cancelMocker_aux2 _ _))
+  | skeep b key kept =>
+    simp only [step]
+    cases h : structOf s b kept with
+    | none => exact AdaptLe.refl s
+    | some r => exact (adaptLe_of_aux2 (structOf_aux2 s b kept r h)).trans (adaptLe_of_aux2 (getMocker_aux2 r.1 r.2 key))
+  | other b => exact AdaptLe.refl s
+  | applyBad b key => exact adaptLe_of_aux2 (getMocker_aux2 s b key)
 
 end C02L
